@@ -486,11 +486,20 @@ func c06RunFresh(cfg c06Cfg, reqs []c06Req) (kind string, o c06Obs, err error) {
 	return "", o, nil
 }
 
+// c06Family groups failure kinds that one defect typically produces under
+// different configurations (so that the shrinker may move between them).
+func c06Family(kind string) string {
+	if strings.HasPrefix(kind, "admitted-") {
+		return "admitted"
+	}
+	return kind
+}
+
 // c06Shrink minimises a failing single-request case dimension by dimension.
 func c06Shrink(cfg c06Cfg, r c06Req, kind string) (c06Cfg, c06Req) {
 	try := func(c c06Cfg, q c06Req) bool {
 		k, _, err := c06RunFresh(c, []c06Req{q})
-		return err == nil && k == kind
+		return err == nil && k != "" && c06Family(k) == c06Family(kind)
 	}
 	if q := r; q.Fwd != "none" {
 		if q.Fwd = "none"; try(cfg, q) {
@@ -524,7 +533,7 @@ func c06Shrink(cfg c06Cfg, r c06Req, kind string) (c06Cfg, c06Req) {
 			}
 		}
 	}
-	for _, v := range []c06EnvVal{c06Unset, {true, ""}} {
+	for _, v := range []c06EnvVal{c06Unset, {true, ""}, {true, c06Secret}} {
 		if cfg.Secret == v {
 			break
 		}
@@ -535,7 +544,7 @@ func c06Shrink(cfg c06Cfg, r c06Req, kind string) (c06Cfg, c06Req) {
 			}
 		}
 	}
-	for _, v := range []c06EnvVal{c06Unset, {true, ""}} {
+	for _, v := range []c06EnvVal{c06Unset, {true, ""}, {true, c06Key1}} {
 		if cfg.Keys == v {
 			break
 		}
@@ -556,7 +565,7 @@ func c06Key(cfg c06Cfg, r c06Req, kind string) string {
 	for _, m := range c06Modes {
 		c := cfg
 		c.Mode = m
-		if k, _, err := c06RunFresh(c, []c06Req{r}); err == nil && k == kind {
+		if k, _, err := c06RunFresh(c, []c06Req{r}); err == nil && k != "" && c06Family(k) == c06Family(kind) {
 			if modes != "" {
 				modes += "+"
 			}
@@ -660,9 +669,9 @@ func c06Shapes(p vk.Params, res *vk.Result) {
 							continue
 						}
 						mc, mr := c06Shrink(cfg, r, kind)
-						_, mo, _ := c06RunFresh(mc, []c06Req{mr})
-						key := c06Key(mc, mr, kind)
-						res.Violate(key, fmt.Sprintf("%s: %s -> %s [%s]", mc, mr, mo, kind), c06Replay{Part: "shapes", Cfg: &mc, Reqs: []c06Req{mr}})
+						mk, mo, _ := c06RunFresh(mc, []c06Req{mr})
+						key := c06Key(mc, mr, mk)
+						res.Violate(key, fmt.Sprintf("%s: %s -> %s [%s]", mc, mr, mo, mk), c06Replay{Part: "shapes", Cfg: &mc, Reqs: []c06Req{mr}})
 					}
 				}
 			}
